@@ -46,6 +46,19 @@ type If struct {
 	HasElse bool
 }
 
+// IfOK is {% if v, ok := helper(args).(ins); ok %}…{% else %}…{% endif %} (AsKW: "as ins" spelling; Not: "; !ok").
+type IfOK struct {
+	Var, OK string
+	Hlp     string
+	Args    []string
+	Ins     string
+	AsKW    bool
+	Not     bool
+	Then    []TNode
+	Else    []TNode
+	HasElse bool
+}
+
 type Ternary struct {
 	Letters string
 	C       Cond
@@ -163,6 +176,28 @@ func (c Cond) src() string {
 
 func (n If) Source(sb *strings.Builder) {
 	sb.WriteString("{% if " + n.C.src() + " %}")
+	srcList(sb, n.Then)
+	if n.HasElse {
+		sb.WriteString("{% else %}")
+		srcList(sb, n.Else)
+	}
+	sb.WriteString("{% endif %}")
+}
+
+func (n IfOK) Source(sb *strings.Builder) {
+	sb.WriteString("{% if " + n.Var + ", " + n.OK + " := " + n.Hlp + "(" + strings.Join(n.Args, ", ") + ")")
+	if n.Ins != "" {
+		if n.AsKW {
+			sb.WriteString(" as " + n.Ins)
+		} else {
+			sb.WriteString(".(" + n.Ins + ")")
+		}
+	}
+	sb.WriteString("; ")
+	if n.Not {
+		sb.WriteString("!")
+	}
+	sb.WriteString(n.OK + " %}")
 	srcList(sb, n.Then)
 	if n.HasElse {
 		sb.WriteString("{% else %}")
@@ -348,6 +383,15 @@ func (n If) Enc(sb *strings.Builder) {
 	sb.WriteString(" " + b01(n.HasElse))
 	encList(sb, n.Else)
 }
+func (n IfOK) Enc(sb *strings.Builder) {
+	sb.WriteString(" ifok " + hs(n.Var) + " " + hs(n.OK) + " " + hs(n.Hlp))
+	encStrs(sb, n.Args)
+	sb.WriteString(" " + hs(n.Ins) + " " + b01(n.AsKW) + " " + b01(n.Not))
+	encList(sb, n.Then)
+	sb.WriteString(" " + b01(n.HasElse))
+	encList(sb, n.Else)
+}
+
 func (n Ternary) Enc(sb *strings.Builder) {
 	sb.WriteString(" ternary " + hs(n.Letters))
 	n.C.enc(sb)
